@@ -26,6 +26,38 @@ import torch
 
 from harness import common as C
 
+# Clause-by-clause coverage of the property text (properties.jsonl C20): clause -> oracle key(s) -> generator.
+CLAUSES = [
+    ("converting a TensorFrame preserves every value and its position",
+     "adapter:<lib>:value:<region>, adapter:<lib>:shape, history:<lib>:value:*", "adapter, history"),
+    ("categorical columns come first and are flagged as categorical",
+     "adapter:xgb:types, adapter:<lib>:cat_features, adapter:<lib>:columns, adapter:<lib>:value:categorical, history:*",
+     "adapter / history with any subset, feat_dict key order shuffled"),
+    ("missing -1 turned into NaN for XGBoost and kept as -1 for CatBoost/LightGBM",
+     "adapter:<lib>:value:categorical", "adapter: missing pattern none / some / all, a -2 code, a numerical -1"),
+    ("numerical columns follow unchanged", "adapter:<lib>:value:numerical", "adapter: NaN patterns, float32 / float64 block"),
+    ("embedding columns are flattened in column order", "adapter:<lib>:value:embedding",
+     "adapter: 1-3 embedding columns of dims 1-3, from_tensor_list / column slice of a wider container / constructor"),
+    ("rows stay in order", "adapter:<lib>:value:*, adapter:<lib>:index",
+     "adapter: unique-id payloads, 0-4 rows, frames selected from a bigger frame by slice / range / list / index / mask"),
+    ("the target is passed through", "adapter:<lib>:y", "adapter: y None / long / float32 / float64"),
+    ("a frame with none of these stypes is rejected", "adapter:<lib>:accepts-empty", "adapter subset 'none' + ignored stypes"),
+    ("ignored stypes (quantifier: plus ignored stypes)", "adapter:<lib>:* (same expectation with and without them)",
+     "adapter: timestamp / multicategorical / sequence_numerical / text_tokenized blocks"),
+    ("x the three adapters", "all adapter keys per lib", "adapter runs xgb, cat, lgbm; history interleaves them on "
+     "shared and fresh objects, positional and keyword call"),
+    ("metrics equal their textbook definitions (RMSE, MAE)", "metric:rmse:value, metric:mae:value, metric:*:raised",
+     "metric: dyadic vectors n=1..8, float32 / float64 / mixed dtypes, positional and keyword call"),
+    ("accuracy with a 0.5 threshold on binary scores", "metric:acc_bin:value[:score-0.5], metric:acc_multi:value",
+     "metric: scores at / around 0.5, targets long / int32 / float / bool; multiclass labels long / int32 / float"),
+    ("the default metric follows the task type", "pair:default:<task>:None", "pair (all 4 tasks, metric None)"),
+    ("unsupported metric/task pairs are rejected", "pair:accepted:*, pair:request:*",
+     "pair: all 4 x 5 pairs, num_classes None / 2 / 3 / 10, positional / keyword / mixed constructor call"),
+    ("predicting or saving before tuning raises", "guard:predict:no-raise, guard:save:no-raise, guard:*:raised",
+     "guard: all sequences up to length 3 + random longer ones; tune positional / keyword / extra kwargs; failing "
+     "tune by _tune raising or y None; save(str / Path / keyword / path without directory), load(str / Path / keyword)"),
+]
+
 PROP = "C20"
 HEADER = "Require Import Coq.QArith.QArith PF.Gen.Tables PF.Model.Gbdt."
 MODEL_TARGETS = ["Model/Gbdt.vo"]
@@ -114,6 +146,15 @@ def gen_adapter(rng, tier, subset=None):
             case["y"] = {"dtype": "long", "v": [[rng.randint(0, 3), 1] for _ in range(n)]}
     else:
         case["y"] = None
+    # HOW the frame reaches the adapter (every accepted form of the `tf` argument)
+    case["form"] = {
+        "derive": rng.pick([None, None, "slice", "index", "mask", "range", "list"]),   # rows selected from a bigger frame
+        "pad": [rng.randint(0, 2), rng.randint(0, 2)],
+        "num_dtype": rng.pick(["float32", "float32", "float64"]),
+        "y_float": rng.pick(["float32", "float64"]),
+        "emb_form": rng.pick(["list", "list", "colslice", "ctor"]),
+        "call": rng.pick(["pos", "kw"]),
+    }
     return case
 
 
@@ -172,11 +213,39 @@ def gen_metric(rng, tier):
         k = rng.randint(2, 4)
         target = [rng.randint(0, k - 1) for _ in range(n)]
         pred = [t if rng.chance(0.5) else rng.randint(0, k - 1) for t in target]
-    return {"kind": "metric", "metric": m, "target": target, "pred": pred}
+    if m in ("rmse", "mae"):
+        td, pd_ = rng.pick([("float32", "float32"), ("float64", "float64"), ("float32", "float64")])
+    elif m == "acc_bin":
+        td, pd_ = rng.pick(["long", "long", "int32", "float32", "bool"]), rng.pick(["float32", "float64"])
+    else:
+        td, pd_ = rng.pick([("long", "long"), ("long", "float32"), ("int32", "int32"), ("float32", "float32")])
+    return {"kind": "metric", "metric": m, "target": target, "pred": pred,
+            "form": {"call": rng.pick(["pos", "kw"]), "target_dtype": td, "pred_dtype": pd_}}
+
+
+def guard_forms(rng, ops):
+    """how each operation is called; the generator tracks `fitted` itself so that a path without a directory
+    part is only passed to save() when the guard has to raise anyway"""
+    forms, fitted = [], False
+    for op in ops:
+        if op == "tune":
+            forms.append(rng.pick(["pos", "kw", "extra_kwargs"]))
+            fitted = True
+        elif op == "tune_fail":
+            forms.append(rng.pick(["raise", "raise", "noy_train", "noy_val"]))
+        elif op == "predict":
+            forms.append(rng.pick(["pos", "kw"]))
+        elif op == "save":
+            forms.append(rng.pick(["str", "path", "kw"] + ([] if fitted else ["nodir", "nodir"])))
+        else:
+            forms.append(rng.pick(["str", "path", "kw"]))
+            fitted = True
+    return forms
 
 
 def gen_guard(rng, tier):
-    return {"kind": "guard", "ops": [rng.pick(GOPS) for _ in range(rng.randint(4, 7))]}
+    ops = [rng.pick(GOPS) for _ in range(rng.randint(4, 7))]
+    return {"kind": "guard", "ops": ops, "forms": guard_forms(rng, ops)}
 
 
 def generate(rng, tier):
@@ -194,10 +263,13 @@ def generate(rng, tier):
     cases += [gen_metric(rng, tier) for _ in range(nm)]
     for t in TASKS:                                  # all (task, metric) pairs: finite, exhaustive
         for m in [None] + METRICS:
-            cases.append({"kind": "pair", "task": t, "metric": m})
+            cases.append({"kind": "pair", "task": t, "metric": m,
+                          "form": {"num_classes": [None, 2, 3, 10][(len(cases) // 3 + rng.randint(0, 3)) % 4]
+                                   if tier != "quick" else [None, 2, 3, 10][(len(cases) // 3) % 4],
+                                   "style": ["pos", "kw", "mixed"][len(cases) % 3]}})
     for L in range(1, 4):                            # all guard sequences up to length 3
         for ops in itertools.product(GOPS, repeat=L):
-            cases.append({"kind": "guard", "ops": list(ops)})
+            cases.append({"kind": "guard", "ops": list(ops), "forms": guard_forms(rng, list(ops))})
     cases += [gen_guard(rng, tier) for _ in range(ng)]
     return cases
 
@@ -222,7 +294,45 @@ def _tens(rows, w, dtype):
 
 
 def build_tf(case):
+    """the frame handed to the adapter: built directly, or selected from a bigger frame (slice / index tensor /
+    bool mask / range / list of ints) whose other rows carry junk"""
+    f = case.get("form") or {}
+    if not f.get("derive"):
+        return _build_tf(case)
+    b, a = f["pad"]
+    n = case["n"]
+    big = dict(case, n=n + b + a)
+    for key, junk in (("cat", lambda r: [7777] * len(r)), ("num", lambda r: [[15555, 2]] * len(r)),
+                      ("emb", lambda r: [[[31111, 4]] * len(c) for c in r])):
+        if case[key]:
+            rows = case[key]["rows"]
+            if key == "emb":
+                proto = [[None] * d for d in case[key]["dims"]]
+            else:
+                proto = [None] * len(case[key]["names"])
+            big[key] = dict(case[key], rows=[junk(proto)] * b + rows + [junk(proto)] * a)
+    if case["y"] is not None:
+        big["y"] = dict(case["y"], v=[[9, 1]] * b + case["y"]["v"] + [[9, 1]] * a)
+    tf = _build_tf(big)
+    idx = list(range(b, b + n))
+    d = f["derive"]
+    if d == "slice":
+        return tf[b:b + n]
+    if d == "range":
+        return tf[range(b, b + n)]
+    if d == "list":
+        return tf[idx]
+    if d == "index":
+        return tf[torch.tensor(idx, dtype=torch.long)]
+    mask = torch.zeros(n + b + a, dtype=torch.bool)
+    mask[b:b + n] = True
+    return tf[mask]
+
+
+def _build_tf(case):
     from torch_frame import TensorFrame, stype
+    form = case.get("form") or {}
+    num_dt = torch.float64 if form.get("num_dtype") == "float64" else torch.float32
     from torch_frame.data.multi_embedding_tensor import MultiEmbeddingTensor
     from torch_frame.data.multi_nested_tensor import MultiNestedTensor
     n = case["n"]
@@ -231,14 +341,26 @@ def build_tf(case):
         parts["categorical"] = (stype.categorical, _tens(case["cat"]["rows"], len(case["cat"]["names"]), torch.long),
                                 case["cat"]["names"])
     if case["num"]:
-        parts["numerical"] = (stype.numerical, _tens(case["num"]["rows"], len(case["num"]["names"]), torch.float32),
+        parts["numerical"] = (stype.numerical, _tens(case["num"]["rows"], len(case["num"]["names"]), num_dt),
                               case["num"]["names"])
     if case["emb"]:
         e = case["emb"]
         tl = []
         for j, d in enumerate(e["dims"]):
             tl.append(_tens([r[j] for r in e["rows"]], d, torch.float32))
-        parts["embedding"] = (stype.embedding, MultiEmbeddingTensor.from_tensor_list(tl), e["names"])
+        ef = form.get("emb_form", "list")
+        if ef == "colslice":       # a column slice of a wider container (non-contiguous values)
+            wide = MultiEmbeddingTensor.from_tensor_list([torch.full((n, 2), 424242.0)] + tl)
+            met = wide[:, 1:]
+        elif ef == "ctor":         # the plain constructor: values and offsets given explicitly
+            offs = [0]
+            for d in e["dims"]:
+                offs.append(offs[-1] + d)
+            met = MultiEmbeddingTensor(n, len(e["dims"]), torch.cat(tl, dim=1) if tl else torch.zeros(n, 0),
+                                       torch.tensor(offs))
+        else:
+            met = MultiEmbeddingTensor.from_tensor_list(tl)
+        parts["embedding"] = (stype.embedding, met, e["names"])
     for s in case["ignored"]:
         if s == "timestamp":
             parts[s] = (stype.timestamp, torch.full((n, 1, 7), 3, dtype=torch.long), ["ts"])
@@ -266,7 +388,8 @@ def build_tf(case):
         if case["y"]["dtype"] == "long":
             y = torch.tensor([v[0] for v in case["y"]["v"]], dtype=torch.long)
         else:
-            y = torch.tensor([v[0] / v[1] for v in case["y"]["v"]], dtype=torch.float32)
+            y = torch.tensor([v[0] / v[1] for v in case["y"]["v"]],
+                             dtype=torch.float64 if form.get("y_float") == "float64" else torch.float32)
     return TensorFrame(feat_dict, names, y=y)
 
 
@@ -303,10 +426,10 @@ def read_out(lib, raw):
             "dtypes": [str(t) for t in df.dtypes.tolist()]}
 
 
-def call_adapter(obj, lib, tf):
+def call_adapter(obj, lib, tf, call="pos"):
     """-> (observation, raw return value or None)"""
     try:
-        raw = getattr(obj, LIBS[lib][1])(tf)
+        raw = getattr(obj, LIBS[lib][1])(tf=tf) if call == "kw" else getattr(obj, LIBS[lib][1])(tf)
         return read_out(lib, raw), raw
     except Exception as ex:
         return {"ok": False, "exc": C.exc_name(ex)}, None
@@ -326,7 +449,7 @@ def run_adapter(case):
     if case["emb"]:
         out["emb_cells_readback"] = emb_readback(case, tf)
     for lib in LIBS:
-        out[lib], _ = call_adapter(new_adapter(lib), lib, tf)
+        out[lib], _ = call_adapter(new_adapter(lib), lib, tf, (case.get("form") or {}).get("call", "pos"))
     return out
 
 
@@ -342,7 +465,7 @@ def run_history(case):
             obj = shared.setdefault(lib, new_adapter(lib))
         else:
             obj = new_adapter(lib)
-        o, raw = call_adapter(obj, lib, tfs[st["frame"]])
+        o, raw = call_adapter(obj, lib, tfs[st["frame"]], (case["frames"][st["frame"]].get("form") or {}).get("call", "pos"))
         steps.append(o)
         raws.append(raw)
     later = []
@@ -398,28 +521,38 @@ def run(case):
         t = _enum(TaskType, case["task"])
         m = None if case["metric"] is None else _enum(Metric, case["metric"])
         try:
-            g = Stub(t, num_classes=3, metric=m)
+            fm = case.get("form") or {"num_classes": 3, "style": "mixed"}
+            if fm["style"] == "pos":
+                g = Stub(t, fm["num_classes"], m)
+            elif fm["style"] == "kw":
+                g = Stub(task_type=t, num_classes=fm["num_classes"], metric=m)
+            else:
+                g = Stub(t, num_classes=fm["num_classes"], metric=m)
             return {"ok": True, "metric": g.metric.value}
         except Exception as ex:
             return {"ok": False, "exc": C.exc_name(ex)}
     if kind == "metric":
         mk = case["metric"]
         fr = lambda v: v[0] / v[1]
+        fm = case.get("form") or {"call": "pos", "target_dtype": None, "pred_dtype": None}
+        DT = {"float32": torch.float32, "float64": torch.float64, "long": torch.long, "int32": torch.int32,
+              "bool": torch.bool}
         try:
             if mk in ("rmse", "mae"):
                 g = Stub(TaskType.REGRESSION, metric=Metric.RMSE if mk == "rmse" else Metric.MAE)
-                target = torch.tensor([fr(v) for v in case["target"]], dtype=torch.float32)
-                pred = torch.tensor([fr(v) for v in case["pred"]], dtype=torch.float32)
+                target = torch.tensor([fr(v) for v in case["target"]], dtype=DT[fm["target_dtype"] or "float32"])
+                pred = torch.tensor([fr(v) for v in case["pred"]], dtype=DT[fm["pred_dtype"] or "float32"])
             elif mk == "acc_bin":
                 g = Stub(TaskType.BINARY_CLASSIFICATION, metric=Metric.ACCURACY)
-                target = torch.tensor(case["target"], dtype=torch.long)
-                pred = torch.tensor([fr(v) for v in case["pred"]], dtype=torch.float32)
+                target = torch.tensor(case["target"], dtype=DT[fm["target_dtype"] or "long"])
+                pred = torch.tensor([fr(v) for v in case["pred"]], dtype=DT[fm["pred_dtype"] or "float32"])
                 assert [_fr(v) for v in pred.tolist()] == [list(Fraction(*v).as_integer_ratio()) for v in case["pred"]]
             else:
                 g = Stub(TaskType.MULTICLASS_CLASSIFICATION, num_classes=4, metric=Metric.ACCURACY)
-                target = torch.tensor(case["target"], dtype=torch.long)
-                pred = torch.tensor(case["pred"], dtype=torch.long)
-            score = g.compute_metric(target, pred)
+                target = torch.tensor(case["target"], dtype=DT[fm["target_dtype"] or "long"])
+                pred = torch.tensor(case["pred"], dtype=DT[fm["pred_dtype"] or "long"])
+            score = (g.compute_metric(target=target, pred=pred) if fm["call"] == "kw"
+                     else g.compute_metric(target, pred))
             return {"ok": True, "score": _fr(score), "score_type": type(score).__name__}
         except Exception as ex:
             return {"ok": False, "exc": C.exc_name(ex), "tb": C.fmt_exc()}
@@ -432,21 +565,42 @@ def run(case):
     d = os.path.join(C.BUILD, f"c20_save_{os.getpid()}")
     steps = []
     try:
-        for op in case["ops"]:
+        import pathlib
+        tf_noy = TensorFrame({stype.numerical: torch.tensor([[0.5], [1.5]])}, {stype.numerical: ["a"]})
+        forms = case.get("forms") or [None] * len(case["ops"])
+        full = os.path.join(d, "sub", "model.bin")
+        for op, fm in zip(case["ops"], forms):
             try:
                 if op == "tune":
                     g.fail_next = False
-                    g.tune(tf, tf, num_trials=1)
+                    if fm == "pos":
+                        g.tune(tf, tf, 1)
+                    elif fm == "extra_kwargs":
+                        g.tune(tf_train=tf, tf_val=tf, num_trials=1, num_boost_round=5, early_stopping_rounds=2)
+                    else:
+                        g.tune(tf, tf, num_trials=1)
                 elif op == "tune_fail":
-                    g.fail_next = True
-                    g.tune(tf, tf, num_trials=1)
+                    g.fail_next = fm in (None, "raise")
+                    g.tune(tf_noy if fm == "noy_train" else tf, tf_noy if fm == "noy_val" else tf, num_trials=1)
                 elif op == "predict":
-                    p = g.predict(tf)
+                    p = g.predict(tf_test=tf) if fm == "kw" else g.predict(tf)
                     assert len(p) == 2
                 elif op == "save":
-                    g.save(os.path.join(d, "sub", "model.bin"))
+                    if fm == "nodir":
+                        g.save("c20_model_without_directory.bin")     # only drawn while the guard must raise
+                    elif fm == "path":
+                        g.save(pathlib.Path(full))
+                    elif fm == "kw":
+                        g.save(path=full)
+                    else:
+                        g.save(full)
                 else:
-                    g.load(os.path.join(d, "sub", "model.bin"))
+                    if fm == "path":
+                        g.load(pathlib.Path(full))
+                    elif fm == "kw":
+                        g.load(path=full)
+                    else:
+                        g.load(full)
                 steps.append({"ok": True, "fitted": bool(g.is_fitted)})
             except Exception as ex:
                 steps.append({"ok": False, "exc": C.exc_name(ex), "fitted": bool(g.is_fitted)})
@@ -744,6 +898,31 @@ def stats(cases, obss):
         d["total"] += 1
         k = c["kind"]
         d["kinds"][k] = d["kinds"].get(k, 0) + 1
+        fr = d.setdefault("forms", {})
+
+        def cnt(name, val):
+            fr.setdefault(name, {})
+            fr[name][str(val)] = fr[name].get(str(val), 0) + 1
+        for fcase in ([c] if k == "adapter" else c["frames"] if k == "history" else []):
+            f = fcase.get("form")
+            if f:
+                cnt("tf_derive", f["derive"])
+                cnt("tf_call", f["call"])
+                if fcase["num"]:
+                    cnt("num_dtype", f["num_dtype"])
+                if fcase["emb"]:
+                    cnt("emb_form", f["emb_form"])
+                cnt("y", "none" if fcase["y"] is None else
+                    ("long" if fcase["y"]["dtype"] == "long" else f["y_float"]))
+        if k == "metric" and c.get("form"):
+            cnt("metric_call", c["form"]["call"])
+            cnt("metric_dtypes:" + c["metric"], c["form"]["target_dtype"] + "/" + c["form"]["pred_dtype"])
+        if k == "pair" and c.get("form"):
+            cnt("init_style", c["form"]["style"])
+            cnt("init_num_classes", c["form"]["num_classes"])
+        if k == "guard" and c.get("forms"):
+            for op, fm in zip(c["ops"], c["forms"]):
+                cnt("op:" + op, fm)
         if k == "adapter":
             sub = "+".join(x for x in ("cat", "num", "emb") if c[x]) or "none"
             d["adapter_subsets"][sub] = d["adapter_subsets"].get(sub, 0) + 1
@@ -802,6 +981,20 @@ def sanity(cases, obss):
         probs.append("too many rejected (empty) frames")
     if d["with_y"] == na:
         probs.append("no frame without y")
+    need = {"tf_derive": ("None", "slice", "index", "mask", "range", "list"), "tf_call": ("pos", "kw"),
+            "num_dtype": ("float32", "float64"), "emb_form": ("list", "colslice", "ctor"),
+            "y": ("none", "long", "float32", "float64"), "metric_call": ("pos", "kw"),
+            "metric_dtypes:rmse": ("float32/float32", "float64/float64", "float32/float64"),
+            "metric_dtypes:mae": ("float32/float32", "float64/float64", "float32/float64"),
+            "metric_dtypes:acc_bin": ("long/float32", "long/float64", "int32/float32", "float32/float32", "bool/float32"),
+            "metric_dtypes:acc_multi": ("long/long", "long/float32", "int32/int32", "float32/float32"),
+            "init_style": ("pos", "kw", "mixed"), "init_num_classes": ("None", "2", "3", "10"),
+            "op:tune": ("pos", "kw", "extra_kwargs"), "op:tune_fail": ("raise", "noy_train", "noy_val"),
+            "op:predict": ("pos", "kw"), "op:save": ("str", "path", "kw", "nodir"), "op:load": ("str", "path", "kw")}
+    for name, vals in need.items():
+        for v in vals:
+            if d.get("forms", {}).get(name, {}).get(v, 0) == 0:
+                probs.append(f"call form {name}={v} never drawn")
     h = d.get("history")
     if not h or h["fresh_steps"] == 0 or h["shared_steps"] == 0:
         probs.append("no multi-frame histories (shared and fresh adapter objects)")
